@@ -19,6 +19,29 @@ def build(ctx, shape, k, prefix=""):
     return m, fr, cycles, info, coords
 
 
+def versor_concrete(ctx, fr, assign):
+    """get_versor_from_vertex(vid) -> the concrete rational unit vector assign(path, vid) (a scenario, used where a clause is about
+    which junctions/interfaces are selected rather than about the numbers)"""
+    table = {}
+    np_ = ctx.module("numpy") if ctx.mode != "sym" else None
+    for beid, be in ctx.list_of(ctx.get(fr, "big_edges")):
+        ids = ctx.list_of(ctx.callm(be, "get_vertices_ids"))
+        for vid in (ids[0], ids[-1]):
+            table[(beid, vid)] = assign(ids, vid)
+
+    def vers(it, a, k):
+        key = (ctx.get(a[0], "big_edge_id"), a[1])
+        if np_ is not None:
+            return np_.array([float(x) for x in table[key]])
+        from fvc import npmodel
+        return npmodel.NDArr(list(table[key]), (2,))
+    ctx.stub("forsys.edge:BigEdge.get_versor_from_vertex", vers, "callee contract proved as O02.3a/O02.3b/O02.4 (here: a concrete scenario of unit vectors)")
+    if ctx.mode != "sym":
+        ctx.apply_stubs = True
+        ctx.stub("forsys.edge:BigEdge.get_versor_from_vertex", vers)
+    return table
+
+
 def versor_by_contract(ctx, fr=None):
     """get_versor_from_vertex(vid) -> symbolic unit vector u[(interface id, vid)] (contract proved in O02.3/O02.4).
     With a frame given, the vectors of all interface ends are created eagerly and the Cauchy-Schwarz bound
